@@ -12,6 +12,7 @@ UNITS = {
     'core_step': {},
     'video_timing': {},
     'codecache': {},
+    'disasm': {},
 }
 
 PROPS = {
@@ -51,7 +52,7 @@ PROPS['C10'] = {
                     'cartridge RAM enable (0x0000-0x1FFF) is not part of the property and not modelled'],
 }
 PROPS['C11'] = {
-    'level': 'proof', 'verus': ['bus', 'cart'], 'trusted_base': _BUS_TB, 'design_ref': 'DESIGN.md 5.11',
+    'level': 'proof', 'verus': ['bus', 'cart'], 'kani': ['misc:header'], 'trusted_base': _BUS_TB, 'design_ref': 'DESIGN.md 5.11',
     'technique': 'Verus built-in obligations (index in bounds, arithmetic overflow, unreachable panics) on the bus functions under the invariant mem_wf preserved by every write',
     'level_text': 'Every index, arithmetic operation and panic site in the four bus helpers, the bank helpers, IO::get_byte/set_byte and the MBC write handlers is proved safe for every address, value and reachable controller state (invariant CartState::inv + mem_wf preserved by every bus write, for any ROM of 1..512 banks and any cartridge RAM size up to 128 KiB).',
     'level_note': 'Process-level abort semantics are not modelled: a reachable panic is already the violation. The LCD pixel pipeline (run_clock_cycles) is outside the bus functions this property quantifies over.',
@@ -157,6 +158,39 @@ PROPS['C04'] = {
     'level_text': 'Both build variants of Core::run_code_block are proved to satisfy block_post(old, new): registers/memory = the interpreter\'s block effect, IME/run-state from the status class, last_block_cycle_length, device catch-up of exactly 4 x block cycles, then interrupt dispatch. In the jit variant this needs: can_dynarec(ip) <=> ip < 0x8000 (RAM code is interpreted), fresh tags, a cache hit or fresh translation being a translation of the currently mapped bytes (C03), and the assumed contract of CodeCache::call (= C01 + C02). Equal states stepped by either variant therefore satisfy the same relation, step after step.',
     'level_note': 'Proof modulo C01-C03 as stated; device state hidden behind MemoryAreas::run_clock_cycles is a deterministic function of (state, cycles) only up to the contracts used (timer, LCD schedule, DMA); serial output is C18.',
     'assumptions': ['interpreter::run_code_block / CodeCache::call: at most 0x30005 machine cycles per block (no u32 overflow of Registers.cycles)'],
+}
+
+PROPS['C18'] = {
+    'level': 'proof', 'verus': ['bus'], 'kani': ['misc:serial'], 'scans': ['stdout'], 'design_ref': 'DESIGN.md 5.18',
+    'trusted_base': _BUS_TB + ['Kani stubs for io::stdout / <Stdout as Write>::write / flush: a recording stream (the host write is assumed to write the whole 1-byte buffer)'],
+    'technique': 'Kani full-domain harness on the real SerialComms::set_control with the host stream stubbed by a recorder; Verus routing contract of IO::set_byte / memory_write_byte; syntactic frame scan for other writers of stdout',
+    'level_text': 'serial_set_control (CBMC, all latch/control/value bytes): a control write with bit 7 set emits exactly the byte held in the data register, once; bit 7 clear and data-register writes emit nothing. Verus (unit bus): only addresses 0xFF01/0xFF02 reach the serial port, 0xFF01 latches the value, 0xFF02 hands it to set_control, every other bus write leaves the serial state untouched. Scan: no other print!/println!/stdout use exists in the core modules (default + jit feature set), so nothing else is emitted while a ROM runs. Both execution modes reach set_control through the same memory_write_byte (C01 bus-write equality).',
+    'level_note': 'Program order across instructions follows from the bus-write order obligations of C01/C06. The scan is syntactic (over-approximate): any textual print!/println!/stdout( in core code is reported.',
+    'assumptions': ['host write() of a 1-byte buffer writes it completely'],
+}
+PROPS['C19'] = {
+    'level': 'proof', 'kani': ['misc:header'], 'design_ref': 'DESIGN.md 5.19',
+    'trusted_base': ['Kani 0.68 + CBMC 6.11', 'the repository files are compiled unmodified via #[path] includes', 'header tables / checksum definition written from the cartridge header specification (kani/src/misc.rs)'],
+    'technique': 'Kani full-domain harnesses on the real repr(C, packed) Header (all 80 bytes symbolic; fixed 25-iteration loop fully unwound with unwinding assertion): checksum acceptance, size tables, controller construction',
+    'level_text': 'For every 80-byte header: valid_checksum() holds iff the checksum of bytes 0x134-0x14C equals byte 0x14D; get_rom_bank_count / get_rom_size_bytes / get_ram_size_bytes equal the header tables for all 256 codes (and always satisfy the bus invariant mem_wf: C11); create_cart_state returns a fresh controller for every supported type and can only panic ("Unsupported cart type", a controlled termination at load time) for the others.',
+    'level_note': 'NOT under contract: main::load_rom / system::read_header / map_rom_file (file I/O, mmap, String): the rejection of files shorter than 0x150 bytes or than their declared size (fix ba0753d) is not machine-checked here; it was confirmed by reading and by the seeded-change experiments only.',
+    'assumptions': ['read_header returns Err for files shorter than 0x150 bytes (std read_exact semantics)'],
+}
+PROPS['C20'] = {
+    'level': 'proof', 'verus': ['disasm'], 'kani': ['misc:strs'], 'design_ref': 'DESIGN.md 5.20',
+    'trusted_base': TB_VERUS + ['decoder::decode external in unit disasm (length 1..3, determinism); Op::to_string external', 'Kani/CBMC for the string harnesses'],
+    'technique': 'Verus loop invariant on debug::disassembly::disassemble (cursor = sum of decoder lengths, addresses mod 2^16); Kani harnesses on parse_address over all ASCII tokens up to a stated length (bounded)',
+    'level_text': 'disassemble is proved (any length, no bound) to tile a byte sequence that ends on an instruction boundary exactly: instruction k starts where k-1 ended, carries the decoder\'s length and bytes, its address is initial + offset mod 2^16, and the cursor ends at the input length. parse_address: for every ASCII token of at most 6 bytes, 0x-prefixed hexadecimal and decimal notation parse to exactly their value and malformed / out-of-range input is rejected (reported under coverage.bounded, not counted as proved).',
+    'level_note': 'Command-word parsing (case / whitespace normalisation, totality on arbitrary Unicode) is not under contract: str/Unicode reasoning is outside Verus and the CBMC cost of to_lowercase/split_whitespace was not attempted. A leading "+" (accepted by from_str_radix) is not treated as malformed.',
+    'assumptions': [],
+}
+PROPS['C15'] = {
+    'level': 'proof', 'kani': ['misc:leaf'], 'verus': ['video_timing'], 'design_ref': 'DESIGN.md 5.15',
+    'trusted_base': ['Kani 0.68 + CBMC 6.11', 'Verus (palette setters in video_regs.vinc)'],
+    'technique': 'leaf contracts only: Kani full-domain harness for tile::interleave; Verus contracts for set_bgp / set_obj_palette shade tables',
+    'level_text': 'Leaf obligations only: tile::interleave(lo, hi) places pixel k\'s colour bits at bits 15-2k / 14-2k for all 2^16 inputs (CBMC, complete); set_bgp / set_obj_palette fill the shade tables from the 2-bit fields (Verus). The composition of a frame (tile fetch, scroll, window, object selection/priority, mixing) is NOT proved.',
+    'level_note': 'The mode-3 pixel pipeline, find_current_line_sprites and the window logic need inductive invariants over nested loops that were out of budget; no bounded stand-in was built either. Treat this claim as partial.',
+    'assumptions': [],
 }
 
 HOOK_COMMITS = ['e7167ea']
